@@ -306,6 +306,10 @@ class Model:
         """Return True/False to force a branch outcome, None otherwise."""
         return None
 
+    def unroll(self, stmt):
+        """How many iterations of loop `stmt` to enumerate (0..n)."""
+        return self.loop_unroll
+
 
 def call_name(call):
     f = call.func
@@ -1262,7 +1266,8 @@ class Walker:
         results = []
         always = isinstance(stmt.test, ast.Constant) and bool(stmt.test.value)
         cur = [st]
-        for it in range(self.model.loop_unroll + 1):
+        unroll = self.model.unroll(stmt)
+        for it in range(unroll + 1):
             nxt = []
             for s in cur:
                 exits = []
@@ -1274,7 +1279,7 @@ class Walker:
                             else:
                                 results.append((('next',), s2))
                             continue
-                        if it == self.model.loop_unroll:
+                        if it == unroll:
                             results.append((('cutoff',), s2))
                             continue
                         s2 = s2.push(Op('loop_iter', stmt, info=it)).clone(loop=st.loop + 1)
@@ -1344,7 +1349,8 @@ class Walker:
                     results.append((('next',), s_done))
         starts = rest
         cur = starts
-        for it in range(self.model.loop_unroll + 1):
+        unroll = self.model.unroll(stmt)
+        for it in range(unroll + 1):
             nxt = []
             for s, itv in cur:
                 # exhausted
@@ -1353,7 +1359,7 @@ class Walker:
                     results.extend(self.run_body(stmt.orelse, s_done))
                 else:
                     results.append((('next',), s_done))
-                if it == self.model.loop_unroll:
+                if it == unroll:
                     results.append((('cutoff',), s))
                     continue
                 s2 = s.push(Op('iter_next', stmt, val=itv, info=True))
